@@ -507,7 +507,7 @@ func comparatorChainSSA(cmp *ssa.Function) (chain []string, why string) {
 			if len(t.Results) != 1 {
 				return nil, "unexpected return"
 			}
-			r := t.Results[0]
+			r := ReturnOperand(t, 0)
 			if phi, ok := r.(*ssa.Phi); ok {
 				_ = phi
 				return nil, "the comparator returns a merged value"
